@@ -701,6 +701,10 @@ class EventBus:
     def _start(self) -> None:
         """Start the event bus if not already running"""
         if not self._is_running:
+            if self.event_queue is not None and self.event_queue._is_shutdown:  # pyright: ignore[reportPrivateUsage]
+                # stop() has shut the queue down for good: it accepts nothing any more (dispatch() raises QueueShutDown),
+                # a run loop restarted on it would poll the dead queue without ever sleeping
+                return
             try:
                 loop = asyncio.get_running_loop()
 
